@@ -518,6 +518,18 @@ def faulty_op(rng, doc):
         lambda: opobj(op=b'copy', frm=p + b'/nope-missing', path=b'/zz'),
         lambda: opobj(op=b'move', frm=p + b'/nope-missing', path=b'/zz'),
         lambda: opobj(op=b'add', path=b'/nope-missing/deeper/x', value=v),
+        # the same failures when the target is the whole document (path "")
+        lambda: opobj(op=b'copy', frm=p + b'/nope-missing', path=b''),
+        lambda: opobj(op=b'move', frm=p + b'/nope-missing', path=b''),
+        lambda: opobj(op=b'copy', frm=b'/nope-missing', path=b''),
+        lambda: opobj(op=b'move', frm=Node.num(1.0), path=b''),
+        lambda: opobj(op=b'copy', frm=Node('z'), path=b''),
+        lambda: opobj(op=b'move', path=b''),
+        lambda: opobj(op=b'copy', path=b''),
+        lambda: opobj(op=b'add', path=b''),
+        lambda: opobj(op=b'replace', path=b''),
+        lambda: opobj(op=b'test', path=b''),
+        lambda: opobj(op=b'test', path=b'', value=same_kind_different(rng, doc)),
         # member names in the wrong case are not the members the RFC names
         lambda: opobj_raw([(b'OP', b'add'), (b'path', p + b'/new'), (b'value', v)]),
         lambda: opobj_raw([(b'Op', b'remove'), (b'path', p)]),
